@@ -272,36 +272,36 @@ impl HistX {
     }
 }
 
-struct Exec<'a> {
-    prop: &'a str,
-    n: Option<Nomt<B3>>,
-    dir: PathBuf,
-    cfg: Cfg,
-    model: Model,
-    uni: Vec<Key>,
-    flags: AuditFlags,
+pub struct Exec {
+    pub prop: String,
+    pub n: Option<Nomt<B3>>,
+    pub dir: PathBuf,
+    pub cfg: Cfg,
+    pub model: Model,
+    pub uni: Vec<Key>,
+    pub flags: AuditFlags,
     /// decode the on-disk image at every quiescent point: "c16" (structure + kv + merkle) / "c19" (+ leaks)
-    image: Option<String>,
+    pub image: Option<String>,
     /// (ln_bump, bbn_bump, keys) observed at every quiescent point
-    bumps: Vec<(u32, u32, usize)>,
+    pub bumps: Vec<(u32, u32, usize)>,
     overlays: BTreeMap<usize, (Option<Overlay>, MOverlay)>,
     /// id of the overlay whose commit was the last commit (None otherwise)
     last_commit_overlay: Option<usize>,
     prepared: BTreeMap<usize, Prepared>,
-    out: Outcome,
-    trace: Vec<String>,
+    pub out: Outcome,
+    pub trace: Vec<String>,
 }
 
 fn viol(fp: &str, msg: String) -> Violation {
     Violation::new(fp, msg)
 }
 
-impl<'a> Exec<'a> {
-    fn n(&self) -> &Nomt<B3> {
+impl Exec {
+    pub fn n(&self) -> &Nomt<B3> {
         self.n.as_ref().unwrap()
     }
 
-    fn state_digest(&self) -> u64 {
+    pub fn state_digest(&self) -> u64 {
         let mut s = String::new();
         for (k, v) in &self.model.kv {
             s.push_str(&hex(&k[..]));
@@ -311,7 +311,7 @@ impl<'a> Exec<'a> {
         fnv_str(&s)
     }
 
-    fn audit(&mut self, when: &str) -> Result<(), Violation> {
+    pub fn audit(&mut self, when: &str) -> Result<(), Violation> {
         self.out.transitions += 1;
         let d = self.state_digest();
         self.out.states.push(d);
@@ -399,7 +399,7 @@ impl<'a> Exec<'a> {
         Ok(base == self.model.kv)
     }
 
-    fn step(&mut self, idx: usize, op: &Value) -> Result<(), Violation> {
+    pub fn step(&mut self, idx: usize, op: &Value) -> Result<(), Violation> {
         let tag = (idx as u64 + 1) * 7919;
         let (name, arg) = {
             let o = op.as_object().unwrap();
@@ -790,7 +790,9 @@ impl<'a> Exec<'a> {
 }
 
 impl HistX {
-    pub fn run_history(&mut self, prop: &str, case: &Value) -> Outcome {
+    /// Materialise the seed of `case` into a fresh directory and return an executor positioned
+    /// before the first operation (store not yet opened).
+    pub fn start(&mut self, prop: &str, case: &Value) -> Exec {
         let cfg = Cfg::from_json(&case["cfg"]);
         let seed_name = case["seed"].as_str().unwrap_or("empty").to_string();
         let mut uni: Vec<Key> = vec![];
@@ -811,8 +813,8 @@ impl HistX {
         let seed = self.seed(&seed_name, &cfg);
         seed.image.materialize(&dir).expect("materialize seed");
         let model = seed.model.clone();
-        let mut ex = Exec {
-            prop,
+        Exec {
+            prop: prop.to_string(),
             n: None,
             dir: dir.clone(),
             cfg: cfg.clone(),
@@ -826,12 +828,13 @@ impl HistX {
             prepared: BTreeMap::new(),
             out: Outcome::default(),
             trace: vec![],
-        };
-        let _ = ex.prop;
+        }
+    }
+
+    pub fn run_history(&mut self, prop: &str, case: &Value) -> Outcome {
+        let mut ex = self.start(prop, case);
         let r: Result<(), Violation> = (|| {
-            ex.n = Some(
-                open_nomt::<B3>(&dir, &cfg).map_err(|e| viol("open-err", format!("open failed: {e:#}")))?,
-            );
+            ex.open()?;
             ex.audit("after opening the seed state")?;
             for (i, op) in case["ops"].as_array().unwrap().iter().enumerate() {
                 ex.step(i, op)?;
@@ -841,12 +844,25 @@ impl HistX {
             }
             Ok(())
         })();
-        // make sure handles are dropped before the directory is reused
-        ex.overlays.clear();
-        ex.prepared.clear();
-        let digest = ex.state_digest();
-        ex.n = None;
-        let mut out = ex.out;
+        ex.finish(r)
+    }
+}
+
+impl Exec {
+    pub fn open(&mut self) -> Result<(), Violation> {
+        self.n = Some(
+            open_nomt::<B3>(&self.dir, &self.cfg).map_err(|e| viol("open-err", format!("open failed: {e:#}")))?,
+        );
+        Ok(())
+    }
+
+    /// Drop every handle and produce the outcome.
+    pub fn finish(mut self, r: Result<(), Violation>) -> Outcome {
+        self.overlays.clear();
+        self.prepared.clear();
+        let digest = self.state_digest();
+        self.n = None;
+        let mut out = self.out;
         out.sig = digest ^ fnv_str(&out.goals.join(","));
         if let Err(v) = r {
             out.violation = Some(v);
